@@ -120,7 +120,10 @@ def assemble (p : FParsed) (bbs : List BBox) (ord ordIn : Ord) : E Circuit :=
     let src := if ["1'b0", "1'h0", "1'd0"].contains g.2 then tie0 else if ["1'b1", "1'h1", "1'd1"].contains g.2 then tie1 else g.2
     { a with nets := pushNet a.nets "buf" [g.1], edges := a.edges ++ [(src, g.1)] }) a
   let g2 := a2.nets.foldl (fun c kv => addNodes c kv.2 kv.1 (some false)) g1
-  let g3 := a2.edges.foldl addEdgeAuto g2
+  let g3e := a2.edges.foldl addEdgeAuto g2
+  -- nets that are only read (floating wires) become undriven buffers, as in the full parser (fix K38)
+  let g3 : Circuit := { g3e with nodes := g3e.nodes.map (fun p =>
+    if p.2.ty.isNone then (p.1, { p.2 with ty := some "buf", out := some false }) else p) }
   p.outputs.foldlM (fun (c : Circuit) o => if c.has o then pure (c.setOutRaw o true) else .error .keyError) g3 >>= fun g4 =>
   let g5 := if (g4.fanout tie0).isEmpty then g4.removeNode tie0 else g4
   let g6 := if (g5.fanout tie1).isEmpty then g5.removeNode tie1 else g5
